@@ -271,7 +271,8 @@ class load(DataStreamProcessor):
 
     def process_resources(self, resources):
         yield from super(load, self).process_resources(resources)
-        for descriptor, it in zip(self.resource_descriptors, self.iterators):
+        iterators = iter(self.iterators)
+        for descriptor, it in zip(self.resource_descriptors, iterators):
             if self.extract_missing_values:
                 it = self.missing_values_extractor(it)
             it = self.caster(descriptor, it)
@@ -280,6 +281,10 @@ class load(DataStreamProcessor):
             if self.limit_rows:
                 it = self.limiter(it)
             yield it
+        # a (descriptor, iterators) source has only run to its end once its
+        # iterator of iterators is exhausted (an upstream dumper finishes then)
+        for _ in iterators:
+            pass
 
     @staticmethod
     def rename_duplicate_headers(duplicate_headers, case_sensitive=True, deduplicate_format=' (%s)'):
